@@ -126,8 +126,10 @@ Definition node_fallback (c : ucfg) (n : nid) (s : ms) (p : val) (e : err) : ms 
   | FbUser => let '(s', r) := emit o s (CFallback n p e) in (s', ret_val r)
   end.
 
+(* the retry settings Run uses: a node that is not a RetryableNode gets one attempt and no wait; a
+   budget below one still means one attempt (flyt.go / batch.go: "if maxRetries < 1 { maxRetries = 1 }") *)
 Definition retry_of (c : ucfg) : nat * nat :=
-  match u_retry c with Some nw => nw | None => (1, 0) end.
+  match u_retry c with Some (n, w) => (Nat.max 1 n, w) | None => (1, 0) end.
 
 (* ------------------------------------------------------------ Run, user nodes *)
 (* the retry loop, flyt.go:719-738 and its copy batch.go:317-334; k = attempts left,
